@@ -7,7 +7,7 @@ from copy import deepcopy
 from typing import TYPE_CHECKING
 
 # Third Party Imports
-from numpy import argwhere, array, ceil, concatenate, delete, dot, exp, hstack, linspace, log, ones, outer
+from numpy import argmax, argwhere, array, ceil, concatenate, delete, dot, exp, hstack, linspace, log, ones, outer
 from numpy import round as np_round
 from numpy import sum as np_sum
 from numpy import union1d, vstack, zeros
@@ -676,6 +676,12 @@ class AdaptiveFilter(KalmanFilter):
             prune_index (``ndarray``): indices of models to be pruned
             observations (``list``): :class:`.Observation` objects associated with the filter step
         """
+        # Don't prune everything: if every model is to be pruned, the most likely one remains
+        # [NOTE]: keeping whichever model comes first can keep a model without any probability mass,
+        #   which cannot be normalized.
+        if len(prune_index) >= len(self.models):
+            prune_index = prune_index[prune_index != argmax(self.model_weights)]
+
         for index in reversed(prune_index):
             # Don't prune everything
             if len(self.models) != 1:
